@@ -182,7 +182,7 @@ func (server *State) Update(ctx context.Context, req *v1alpha1.UpdateRequest) (*
 
 	opts := []state.UpdateOption{state.WithUpdateOwner(req.GetOptions().GetOwner())}
 
-	if req.GetOptions().ExpectedPhase == nil {
+	if req.GetOptions() == nil || req.GetOptions().ExpectedPhase == nil {
 		opts = append(opts, state.WithExpectedPhaseAny())
 	} else {
 		var expectedPhase resource.Phase
